@@ -1,6 +1,7 @@
 package rules
 
 import (
+	"strings"
 	"fmt"
 	"go/token"
 	"go/types"
@@ -129,6 +130,71 @@ func c18(r *engine.Report, p *engine.Program) {
 		r.Check("R1-atomic", "handleServiceAdvertisement: newer-than test + table update in one serviceAdsLock write section", held.Pos(), ok,
 			fmt.Sprintf("the held-entry lookup, the Time.After comparison and the %d table updates all run under the serviceAdsLock write lock with no release in between", len(effects)),
 			why+" — two copies of different age arriving on two links can both pass the test and the older one can be written last")
+	}
+	// R5b who stamps an advertisement, and under which lock: only the owner side sets
+	// ServiceAdvertisement.Time — the periodic advertiser while it holds listenerLock over its
+	// snapshot of the registry (Close stamps the withdrawal under the same lock, so no advertisement
+	// of a listener can carry a later time than that listener's withdrawal), the local add/remove
+	// helpers, and Status() on its private display copy. A receiver never restamps what it stores.
+	{
+		tf := p.Field("netceptor", "ServiceAdvertisement", "Time")
+		ll := p.Field("netceptor", "Netceptor", "listenerLock")
+		allowed := map[string]string{
+			"(*netceptor.Netceptor).sendServiceAds":                   "periodic advertiser, under listenerLock",
+			"(*netceptor.Netceptor).AddLocalServiceAdvertisement":     "owner-side table entry when a listener opens",
+			"(*netceptor.Netceptor).RemoveLocalServiceAdvertisement":  "the withdrawal, stamped by Close under listenerLock",
+			"(*netceptor.Netceptor).Status":                           "display copy of the node's own entries",
+		}
+		var bad []string
+		n := 0
+		for _, a := range p.FieldAccesses(tf) {
+			if a.Kind != engine.AccStore || engine.IsMock(a.Fn) || !inPkg(a.Fn, "netceptor") {
+				continue
+			}
+			n++
+			name := engine.FuncName(engine.Outermost(a.Fn))
+			if allowed[name] == "" {
+				helper := engine.Outermost(a.Fn)
+				if privateHelperOf(p, helper, map[string]bool{"(*netceptor.Netceptor).sendServiceAds": true}) == "" {
+					bad = append(bad, name+" at "+p.Pos(a.Instr.Pos()))
+					continue
+				}
+				// a helper of the advertiser: every call site must hold listenerLock
+				if obj, _ := helper.Object().(*types.Func); obj != nil {
+					for _, cs := range p.CallSitesOf(obj) {
+						held := false
+						for k := range p.Locks(cs.Parent()).HeldAt(cs) {
+							if strings.HasSuffix(k, ll.Name()) {
+								held = true
+							}
+						}
+						if !held {
+							bad = append(bad, name+" (called without listenerLock at "+p.Pos(cs.Pos())+")")
+						}
+					}
+				}
+				continue
+			}
+			if name == "(*netceptor.Netceptor).sendServiceAds" {
+				// the value is time.Now() evaluated with listenerLock held
+				st := a.Instr.(*ssa.Store)
+				c, isC := engine.Unwrap(st.Val).(*ssa.Call)
+				held := false
+				if isC && engine.IsCallTo(c.Common(), "time.Now") {
+					for k := range p.Locks(a.Fn).HeldAt(c) {
+						if strings.HasSuffix(k, "."+ll.Name()) || strings.HasSuffix(k, ll.Name()) {
+							held = true
+						}
+					}
+				}
+				if !held {
+					bad = append(bad, name+": stamp not taken under listenerLock at "+p.Pos(a.Instr.Pos()))
+				}
+			}
+		}
+		r.Check("R5-advertiser", "ServiceAdvertisement.Time: stamped only by the owner side, the periodic one under listenerLock", token.NoPos, len(bad) == 0 && n >= 4,
+			fmt.Sprintf("%d store(s), all in the frozen owner-side table; the advertiser's time.Now() runs with listenerLock held", n),
+			"the advertisement time is written in "+strings.Join(bad, ", ")+": the order of an advertisement and the withdrawal of the same listener (or the owner's clock versus the receiver's) is no longer what the 'newer than' test assumes — a withdrawn service stays listed")
 	}
 	// R3 nil check (shared with C07-O2)
 	targets := decodeTargets(p, []*ssa.Function{hsa})
